@@ -35,7 +35,9 @@ Print Assumptions C10_index_range_covers.
    WriteState caller), a new request handed to a goroutine (creating it if needed), or a restart of the process at
    any moment -- a kill of the running process included -- with any combination of {state file readable or not,
    cache file kept / deleted / truncated or extended, preload} -- successful, or FAILING after it replaced the state and
-   resized the cache file (LFailedStart; a start-up that fails before that has changed nothing and is no step).  These
+   resized the cache file (LFailedStart; a start-up that fails before that has changed nothing and is no step), or
+   with a SEPARATE init state file holding ANY bitmap (LRestartInit: the pre-loader calls loadChunk for every set bit,
+   null chunks included).  These
    are all the restarts the code can perform on what it and such events left behind; an external party REPLACING THE
    CONTENT of the cache or state file is not a label.  For EVERY schedule, every fault pattern of a sound store and
    any number of goroutines the loader invariant holds (or H collides): a set done bit or a null chunk means the range
@@ -243,3 +245,14 @@ Example C10_store_eof_now :
   s_log (run (step ex_idx ex_null ex_store_eof) ([LSubmit 0 (RqRead 0 2)] ++ T0x 4 ++ [LSubmit 0 (RqRead 0 2)] ++ T0x 6) (init ex_idx)) =
   [(RqRead 0 2, ROk [5; 6]%N false); (RqRead 0 2, RErr XUnexpectedEOF)].
 Proof. vm_compute. reflexivity. Qed.
+
+(* Pre-load from an init state that lists a NULL chunk, with a transient failure of a real chunk (every schedule is
+   covered by C10_sparse_read_sound; this is the one a "number of chunks still missing" shortcut would break): the first
+   start pre-loads from the all-ones bitmap, the fetch of chunk 0 (call 0) fails, the null chunks 1, 2 and chunk 3 are
+   loaded; a read of everything then fetches chunk 0 and returns the blob's bytes. *)
+Example C10_example_preload_null_chunks :
+  let s := ex_run ([LRestartInit (mkmode true CAbsent true) [true; true; true; true]] ++
+                   concat (repeat [LThread 0; LThread 1; LThread 2; LThread 3] 6) ++
+                   [LSubmit 4 (RqRead 0 7)] ++ repeat (LThread 4) 8) in
+  hd_error (s_log s) = Some (RqRead 0 7, ROk ex_blob false) /\ s_done s = [true; true; true; true] /\ s_calls s = 5%nat.
+Proof. vm_compute. repeat split. Qed.
